@@ -121,7 +121,9 @@ fn dump<'tcx>(tcx: TyCtxt<'tcx>, name: &str, out_dir: &str) {
         let kind = tcx.def_kind(def);
         match kind {
             DefKind::Fn | DefKind::AssocFn | DefKind::Closure => {}
-            // consts/statics/anon consts: bodies are evaluated instead (see `consts` table)
+            // initialisers of named consts / statics are dumped too (tables such as
+            // `ProtocolVersion::ALL`); their values are additionally evaluated below
+            DefKind::Const { .. } | DefKind::AssocConst { .. } | DefKind::Static { .. } => {}
             _ => continue,
         }
         let steal = tcx.mir_built(def);
